@@ -48,6 +48,11 @@ def _form(payload, form):
         return rb58.encode_check(payload)
     if form == "bytes":
         return bytes(payload)
+    if form == "stream-offset":
+        # the record sits behind a header; the stream is positioned ON the record (a stream is read from where it stands)
+        st = BytesIO(b"\x04\x88\xad\xe4HDR" + bytes(payload) + b"trailer")
+        st.seek(7)
+        return st
     return BytesIO(bytes(payload))
 
 
@@ -63,11 +68,25 @@ def judge_roundtrip(ctx, case):
     cls_ = PrvKeyNode if private else PubKeyNode
     bad = []
     nodes = {}
-    for form in ("str", "bytes", "stream"):
+    for form in ("str", "bytes", "stream", "stream-offset"):
         try:
             nodes[form] = cls_.parse(_form(payload, form), testnet=tn)
         except Exception as e:  # noqa
             bad.append(("parse.%s.raised" % form, "node", e))
+    if not bad:
+        # several records in ONE stream, read one after the other: the second parse must yield the second record
+        try:
+            other = dict(case, depth=(case["depth"] + 1) % 256, pindex=case["pindex"] ^ 0x80000001, c=case["c"][::-1])
+            if other["depth"] == 0:
+                other.update(depth=1)
+            if other["pfp"] == b"\x00" * 4:
+                other["pfp"] = b"\x01\x02\x03\x04"
+            pay2 = bridge.xkey_from_case(other).payload(ver, private)
+            st = BytesIO(pay2 + bytes(payload) + pay2)
+            cls_.parse(st, testnet=tn)
+            nodes["stream-second"] = cls_.parse(st, testnet=tn)
+        except Exception as e:  # noqa
+            bad.append(("parse.stream-second.raised", "node", e))
     if not bad:
         for form, node in nodes.items():
             b = bridge.compare_node(node, xk, tn, private)
@@ -83,7 +102,7 @@ def judge_roundtrip(ctx, case):
                 bad.append(("reserialize.%s" % form, S, out))
             elif len(out) != 111:
                 bad.append(("length", 111, len(out)))
-        if not (nodes["str"] == nodes["bytes"] == nodes["stream"]):
+        if not (nodes["str"] == nodes["bytes"] == nodes["stream"] == nodes["stream-offset"] == nodes["stream-second"]):
             bad.append(("forms_equal", True, False))
         # equality must discriminate every serialised field: change exactly one
         fields = ["c", "k"] + (["pindex", "pfp", "depth"] if case["depth"] else [])
